@@ -218,7 +218,8 @@ class HistExhaustive(_HistStream):
 
 
 EXTRA = (['suf:' + l for l in _log.VERB] + ['c:O:r', 'c:O:x', 'c:O:y'] + ['c:%s:y' % v for v in _log.VERB])
-SLOW = ['c:%s:r:%s' % (v, f) for v in ('N', 'O', 'W', 'D') for f in 'mec'] + ['c:D:x:m', 'c:I:x:e', 'c:C:x:c', 'c:D:y:m']
+SLOW = (['c:%s:r:%s' % (v, f) for v in ('N', 'O', 'W', 'D') for f in 'meca'] + ['c:D:x:m', 'c:I:x:e', 'c:C:x:c', 'c:D:y:m'] +
+        ['c:%s:r:a' % v for v in ('N', 'O', 'C', 'I', 'D')])
 
 
 class HistRandom(_HistStream):
@@ -235,13 +236,17 @@ class HistRandom(_HistStream):
             {'start': 0, 'prefix': ['dis', 'suf:D', 'c:W:r', 'en', 'c:O:r', 'c:C:x', 'su:N', 'c:D:r'], 'depth': 0},
             {'start': 0, 'prefix': ['suf:N', 'c:D:r', 'c:D:x', 'c:W:r:m', 'c:D:r:e', 'c:N:r:c'], 'depth': 0, 'sig': 1},
             {'start': 1, 'prefix': ['c:D:x:m', 'c:I:x:e', 'c:C:x:c', 'c:D:y:m'], 'depth': 0, 'sig': 2},
+            # seeded change C20-2: array keyword arguments must reach the sift untouched in every logger state
+            {'start': 0, 'prefix': ['c:O:r:a', 'su:W', 'c:O:r:a', 'c:D:r:a', 'sl:D', 'c:N:r:a', 'dis', 'c:O:r:a', 'en', 'suf:I', 'c:C:r:a'],
+             'depth': 0, 'sig': 3},
+            {'start': 1, 'prefix': ['c:O:r:a', 'c:W:r:a', 'sl:C', 'c:O:r:a'], 'depth': 0, 'sig': 1},
         ]
 
     def generate(self, rng, tier):
         n = 1200 if tier == 'thorough' else 150
         for i in range(n):
             length = rng.randint(4, 30) if rng.random() < 0.8 else rng.randint(31, 80)
-            slow_p = 0.04 if rng.random() < 0.5 else 0.0
+            slow_p = 0.06 if rng.random() < 0.5 else 0.0
             toks = []
             for _ in range(length):
                 u = rng.random()
@@ -257,7 +262,7 @@ class HistRandom(_HistStream):
         for m, lab in (('r', 'returns'), ('x', 'raises-shape'), ('y', 'raises-no-convergence')):
             if any(is_call(x) and parse_call(x)[1] == m and parse_call(x)[0] in NUM for x in toks):
                 t.append('override+' + lab)
-        for f, lab in (('m', 'mask_sift'), ('e', 'ensemble_sift'), ('c', 'complete_ensemble_sift')):
+        for f, lab in (('m', 'mask_sift'), ('e', 'ensemble_sift'), ('c', 'complete_ensemble_sift'), ('a', 'array-kwargs')):
             if any(is_call(x) and parse_call(x)[2] == f for x in toks):
                 t.append(lab)
         if 'dis' in toks:
